@@ -4,7 +4,7 @@ import sys
 
 from . import framework
 from .framework import RULES
-from . import rules_cache, rules_guard, rules_fs, rules_ef, rules_sd, rules_walk  # noqa: F401  (registers rules)
+from . import rules_cache, rules_guard, rules_fs, rules_ef, rules_sd, rules_walk, rules_crc  # noqa: F401  (registers rules)
 
 PROPS = {}
 
@@ -38,6 +38,17 @@ def main(argv):
         return 2
     from .propinfo import INFO
     info = INFO.get(prop, {})
+    proof = None
+    if info.get("level") == "proof":
+        def proof(instances):
+            ob = sum(1 for i in instances if i["status"] in ("pass", "violation"))
+            from . import rules_crc
+            fine = rules_crc.PROOF
+            return {"obligations": max(ob, 1), "discharged": sum(1 for i in instances if i["status"] == "pass"),
+                    "fine_grained_obligations": dict(fine),
+                    "checker_cmd": "cd /verif && ./check %s --tier %s" % (prop, tier),
+                    "trusted_base": ["rustc MIR construction and const evaluation", "mirfacts serialisation", "analysis/absval.py bit-vector transfer functions (xor, and/or with constants, constant shifts, casts)",
+                                     "analysis/stdmodel.py models of u16::from, slice iteration", "reference CRC step computed from the polynomial in analysis/rules_crc.py:ref_step"]}
     return framework.check_property(
         prop,
         rids,
@@ -45,6 +56,7 @@ def main(argv):
         level=info.get("level", "other"),
         explanation=info.get("explanation", "static rules over MIR facts: " + ", ".join(rids)),
         assumptions=info.get("assumptions", framework_default_assumptions()),
+        proof=proof,
     )
 
 
